@@ -141,3 +141,8 @@ Example C13_handoff_nonvacuous :
      [1; 4; 9; 4; 9; 3; 7; 0; 0; 11]; [0; 4; 9; 4; 9; 3; 7; 0; 0; 11]; [1; 4; 9; 4; 9; 4; 9; 0; 0; 0]; [1; 4; 9; 4; 9; 4; 9; 0; 0; 0];
      [1; 5; 10; 5; 10; 5; 10; 0; 0; 0]].
 Proof. vm_compute. reflexivity. Qed.
+
+(* a grant whose position the replica does not reach in time is given back and forgotten: the replica is not the holder *)
+Theorem C13_grant_not_reached_forgets : forall s id s' post d, step s (EGrant id true) = (s', c_refused) ->
+  grant s id <> (fst (grant s id), None) -> rlock s' = None /\ step s' (ECommit post d) = (s', c_refused).
+Proof. exact grant_not_reached_forgets. Qed.
